@@ -128,7 +128,8 @@ pub fn profile(prop: &str, tier: &str) -> Profile {
             pays: ALL_PAY.to_vec(),
             ..base
         },
-        "C05" => Profile {
+        // "C05v1" is the profile the regression cases C05-D1 / C05-D2 were generated under
+        "C05" | "C05v1" => Profile {
             name: "C05",
             weights: cat(&[
                 SENDS,
@@ -142,6 +143,9 @@ pub fn profile(prop: &str, tier: &str) -> Profile {
                     (K::DropH, 3),
                     (K::Yield, 1),
                 ],
+                // "destroyed ... when its last handle goes away" depends on how the handles came
+                // about: conversions, clones and streams belong to the history (C05-r6m2)
+                if prop == "C05" { &[(K::ConvertH, 2), (K::CloneH, 1), (K::StreamNext, 1)] } else { &[] },
             ]),
             pays: droppable(),
             ..base
